@@ -2,32 +2,83 @@
 
 (M)  CvPartition.tla: the rejection-sampling fold generator with the RNG draw nondeterministic (every stream), splits and
      the per-group merge: partition / disjoint+exhaustive splits / every object predicted once, for all n, groups; fair
-     termination of the rejection loop.  CvLabels.tla: label-driven folds for ALL label vectors (gaps, unbalanced).
+     termination of the rejection loop; the same machine under the id-renaming VIEW (all draws still generated, one
+     representative per renaming class kept) for EVERY (n, groups) of the quantifier, n <= 30.
+     CvLabels.tla: label-driven folds for ALL label vectors (gaps, unbalanced).
      CvOrch.tla: batch orchestration (bootstrap: full batches; LOO/k-fold: guarded batches): every work item once, no merge
      before join, for all (items, threads) and every completion order.
-(C)  c05_drv drives the real drivers.  tts: the public train_test_split() for every n x test fraction k/8;  helpers: the two public helpers with x[i] = i for all (n, groups);  cv: Bootstrap /
-     LOO / KFoldCV for PLS, MLR, LDA on random data, hook H5 records the fold matrices, the row ids really copied into
-     train/test and the create/join/merge order; the harness refits through the public API on exactly the logged training
-     ids and re-runs with only y[i] changed;  labels: TLC-generated label vectors replayed through KFoldCV.
-     TLC validates every recorded block against TraceCv.tla.
+     CvBoot.tla: the bootstrap accumulators (per-worker sums and visit counters, merge in thread order, division by the
+     visit counter) over batches x completion orders x two CALLS in one process: the reported average is the exact mean of
+     the per-pass predictions of THIS call whatever the thread count and whatever the outputs held (Mode "fresh"); the
+     stale-accumulator and requested-iterations variants are refuted by TLC (negative configurations).
+     CvDomain.tla: the property's quantifier, the learners' domains and the input/history classes K1..K10 as TLA+
+     predicates; CvCases.tla: stratified case families; TLC emits the chains that the driver replays.
+(C)  c05_drv drives the real drivers.  tts: the public train_test_split() for every n x test fraction k/8;  helpers: the
+     two public helpers with x[i] = i for all (n, groups);  cv: Bootstrap / LOO / KFoldCV for PLS, MLR, LDA on random data,
+     hook H5 records the fold matrices, the row ids really copied into train/test and the create/join/merge order; the
+     harness refits through the public API on exactly the logged training ids and re-runs with only y[i] changed;  labels:
+     TLC-generated label vectors replayed through KFoldCV;  cases: the TLC-generated chains of CvCases.tla (thread counts
+     1..8 x scheme x learner, iterations 1..12, group counts 2..n, K1 shapes, K3/K4/K5/K8 data, K10 label alphabets, K6
+     kernel processor counts, x/y autoscaling, own-response insensitivity for EVERY object, K7 histories: several runs in ONE
+     process into the same already sized outputs), each chain on 2 (quick) / 3 (thorough) different data sets; helpers / tts also with
+     fold matrix and split outputs already sized by an earlier use.  TLC validates every recorded block against TraceCv.tla, which itself re-checks
+     that each case lies inside the quantifier (CvDomain!Admissible).
+
+Clause table (statement of C05 -> deciding TLA+ definition -> event that carries it):
+  "leave-one-out, user-grouped k-fold and bootstrap ... for every learner (PLS, MLR, LDA)"
+        -> CvDomain!Admissible + CvCases!Required (every scheme x learner x thread count must be emitted) -> Run
+  "the value predicted for an object ... equals the prediction of a model refitted through the public API on exactly the
+   other folds"        -> TraceCv!TPred: Ev.refit <= Tol                                  -> Pred.refit (harness refit on the logged ids)
+  "does not change when that object's own response is changed"
+        -> TraceCv!TPred: Ev.sens in {0} (every object when run.sensall = 1), TEnd: "Sens" in seen -> Pred.sens
+  "each object index appears in exactly one group"
+        -> CvFolds!IsPartition (model: CvPartition!Partition / NoDupEver, CvLabels!LabelFolds; trace: TGroups)   -> Groups.gid
+  "training and test parts are disjoint and together exhaust the data"
+        -> CvFolds!SplitIsSound (model: SplitsSound; trace: TSplit, TTts; helpers: TRows)     -> Split.train/test, Tts, Rows
+  "every object receives a finite prediction in every iteration"
+        -> TPred: Ev.finite = 1 /\ Ev.cnt = Ev.passes (= merged workers = fold matrices seen); PassComplete; OrchComplete;
+           model: CvPartition!EveryObjectOnce, CvBoot!CounterIsPasses / AverageIsMean     -> Pred.finite/cnt/passes, Create/Join/Merge
+  "the reported residuals are prediction minus the matching observed response column"
+        -> TResid: Ev.err <= Tol /\ Ev.resp = col % ny /\ Ev.lv = col \\div ny + 1; TResOnly (residual-only call)  -> Resid, ResOnly
+  (delivery to the caller: the output objects survive the call and have shape n x scol, whatever they held before)
+        -> TOut: pred_freed = res_freed = 0; TEnd: Ev.shape = 1; model: CvBoot!SecondCallIndependent            -> Out, End
 """
 import json, os, random, shutil
+from concurrent.futures import ThreadPoolExecutor
 from vf import build, tlc, trace
 from vf import run as hrun
 from vf.core import InfraError
 
 LEVEL = "model_checking"
 READY = True
-TECHNIQUE = ("TLC model checking of CvPartition/CvLabels/CvOrch (all draw sequences, label vectors, completion orders) + TLC trace validation of fold "
-             "matrices, split ids, orchestration order, refit errors and own-response sensitivity recorded from the real CV drivers (hook H5)")
-LEVEL_TEXT = ("The fold generator is model-checked with the random draw left nondeterministic, so every RNG stream is covered for all n <= 6..7 and group "
-              "counts; label-driven folds for all label vectors; orchestration for all (items, threads) and completion orders. The real drivers are then run for "
-              "PLS/MLR/LDA under bootstrap, LOO and k-fold; TLC checks on the recorded ids that every fold matrix is a partition, every split disjoint and "
+W = max(1, int(os.environ.get("VERIF_WORKERS", "8")))
+TECHNIQUE = ("TLC model checking of CvPartition (all draw sequences; id-renaming view for every (n, groups) with n <= 30) / CvLabels / CvOrch / CvBoot (accumulators, "
+             "two calls per process, refuted stale variants) + TLC-generated stratified case chains (CvCases over the quantifier, learner domains and input classes "
+             "K1..K10 of CvDomain) replayed into the real CV drivers + TLC trace validation of fold matrices, split ids, orchestration order, refit errors, "
+             "own-response sensitivity of every object, residual columns and output objects recorded from the real CV drivers (hook H5)")
+LEVEL_TEXT = ("The fold generator is model-checked with the random draw left nondeterministic, so every RNG stream is covered for all n <= 6 (quick) / 8 (thorough) and group "
+              "counts (and, under the id-renaming view, for every n <= 30); label-driven folds for all label vectors; orchestration for all (items, threads) and "
+              "completion orders; the bootstrap accumulators over batches, completion orders and two calls in one process. The real drivers are then run for "
+              "PLS/MLR/LDA under bootstrap, LOO and k-fold on TLC-generated stratified cases (thread counts 1..8 incl. more threads than work items / objects, "
+              "iterations 1..12, group counts 2..n, more responses than predictors, wide training sets, offsets/magnitudes/ties, user label alphabets, several "
+              "runs in one process into already sized outputs); TLC checks on the recorded ids that every fold matrix is a partition, every split disjoint and "
               "exhaustive, every object predicted once per pass, nothing merged before its join, and that the logged refit error / own-response sensitivity / "
-              "residual-column errors are within bounds.")
+              "residual-column errors are within bounds and the caller's output objects survive.")
 LEVEL_NOTE = ("Trusts TLC, hook H5 placement, and the harness's projection (refit through the public API on the logged training ids, double-precision comparison "
-              "quantised to 1e-12 units). Model checking is exhaustive only within the small bounds; the conformance runs are sampled configurations. Group count 1 "
-              "(empty training set) and KFoldCV+LDA (not supported by the routine) are exercised for fold structure only / excluded, as stated in DESIGN.md.")
+              "quantised to 1e-12 units relative to max(|value|, 1), or to 1e-6 for the 1e-6-magnitude class - never looser). Model checking is exhaustive only "
+              "within the small bounds (the n <= 30 run relies on the invariance of the machine under renaming object ids); the conformance runs are stratified + "
+              "sampled configurations. Classes excluded because the quantifier / statement excludes them: group count 1 (its training set is empty: fold structure "
+              "only, through the helpers); KFoldCV+LDA (the routine never creates the LDA workers it joins); K9 missing-value codes (the statement does not mention "
+              "missing values; a response equal to 99999999 is C07's/C03's business); y-autoscaling of a constant response (C03's business); MLR with a constant column (rank-deficient with the intercept: outside "
+              "MLR's own domain, C07); LDA with fewer than 3 training members per class (C08's domain); bootstrap own-response test with more than one thread (two "
+              "runs race on the shared generator word - property C06). Lost updates in shared accumulators need a collision and are C06's business.")
+
+# KFoldCV frees the caller's predicted_y when it is already sized for another shape (fixes/C05-kfoldcv-sized-output.diff).  The statement of C05 is
+# about the predictions the routines DELIVER ("every object receives a finite prediction"): a freed output delivers none, so it is reported as a
+# violation.  Set to False to report it as an EXTRA-FINDING instead (then it never changes the exit code).
+SIZED_OUTPUT_IS_VERDICT = True
+SC = {"boot": 0, "loo": 1, "kfold": 2}
+AL = {"PLS": 0, "MLR": 1, "LDA": 2}
 
 
 def _block_info(block):
@@ -44,7 +95,15 @@ def _sig(ev, block):
     scheme, algo = run.get("scheme", "?"), run.get("algo", "?")
     e = ev.get("e")
     if e == "Crash":
-        return "CV:%s:crash:%s:rc%s" % (ev.get("scheme"), ev.get("algo"), ev.get("rc")), "CV run died or hung (rc=%s): %s" % (ev.get("rc"), ev)
+        return "CV:%s:crash:%s:rc%s" % (scheme if scheme != "?" else ev.get("scheme"), algo if algo != "?" else ev.get("algo"), ev.get("rc")), \
+               "CV run died or hung (rc=%s): %s (chain starting with %s)" % (ev.get("rc"), {k: run.get(k) for k in ("scheme", "algo", "n", "p", "ny", "nlv", "groups", "iters", "nth", "hist")}, ev)
+    if e == "Out":
+        which = "predicted_y" if ev.get("pred_freed") else "pred_residuals"
+        return "CV:%s:sized-output:caller-matrix-freed" % scheme, \
+               ("%s: the caller's %s matrix (already sized by an earlier call, other shape) was FREED and replaced by a new object the caller never sees - "
+                "the caller's pointer dangles (run %s of the process, %s)") % (
+                   {"kfold": "KFoldCV", "loo": "LeaveOneOut", "boot": "BootstrapRandomGroupsCV"}.get(scheme, scheme), which, run.get("hist"),
+                   {k: run.get(k) for k in ("algo", "n", "ny", "nlv", "nth")})
     if e == "Groups":
         return "CV:%s:partition" % scheme, "fold matrix is not a partition of 0..n-1: %s" % ev
     if e == "Split":
@@ -55,42 +114,83 @@ def _sig(ev, block):
         return "CV:tts:split", "train_test_split: test/training parts are not disjoint + exhaustive, or the copied rows are not the rows of the reported ids: %s" % ev
     if e == "Rows":
         return "CV:helpers:rows", "rows copied into train/test are not the rows of the logged ids"
+    hist = ":history" if run.get("hist", 0) > 0 else ""
     if e == "Pred":
         if ev.get("finite") != 1:
-            return "CV:%s:finite:%s" % (scheme, algo), "object %s has a non-finite prediction (%s)" % (ev.get("i"), run)
+            return "CV:%s:finite:%s%s" % (scheme, algo, hist), "object %s has a non-finite prediction (%s)" % (ev.get("i"), run)
         if ev.get("cnt") != ev.get("passes"):
             return "CV:%s:coverage:%s" % (scheme, algo), "object %s predicted %s times in %s passes" % (ev.get("i"), ev.get("cnt"), ev.get("passes"))
-        if ev.get("sens", -1) not in (-1, 0):
+        if ev.get("sens", -1) not in (-2, -1, 0):
             return "CV:%s:leak:%s" % (scheme, algo), "prediction of object %s changes when only its own response changes (%s units of 1e-12)" % (ev.get("i"), ev.get("sens"))
         if ev.get("refit", 0) > 1000:
-            return "CV:%s:refit:%s" % (scheme, algo), "prediction of object %s differs from a model refitted on exactly the other folds (%s units of 1e-12)" % (ev.get("i"), ev.get("refit"))
+            return "CV:%s:refit:%s%s" % (scheme, algo, hist), "prediction of object %s differs from a model refitted on exactly the other folds (%s units of 1e-12; run %s of the process)" % (
+                ev.get("i"), ev.get("refit"), run.get("hist", 0))
+        if ev.get("sens") == -1 and run.get("sensall") == 1:
+            raise InfraError("driver did not measure the own-response sensitivity of object %s in an every-object run: %s" % (ev.get("i"), run))
         return "CV:%s:pred-order:%s" % (scheme, algo), "prediction phase reached with incomplete orchestration/passes: %s" % ev
     if e == "Resid":
         cls = "ny%s:nlv%s" % (">1" if run.get("ny", 1) > 1 else "1", ">1" if run.get("nlv", 1) > 1 else "1")
-        return "CV:%s:residual:%s" % (scheme, cls), "reported residual is not prediction minus the matching response column (col %s, response %s, lv %s; %s)" % (
-            ev.get("col"), ev.get("resp"), ev.get("lv"), {k: run.get(k) for k in ("algo", "n", "ny", "nlv")})
+        return "CV:%s:residual:%s%s" % (scheme, cls, hist), "reported residual is not prediction minus the matching response column (col %s, response %s, lv %s; %s)" % (
+            ev.get("col"), ev.get("resp"), ev.get("lv"), {k: run.get(k) for k in ("algo", "n", "ny", "nlv", "hist")})
+    if e == "ResOnly":
+        return "CV:%s:residual-only-call" % scheme, "residuals returned by the call without a prediction output are not prediction minus the matching response column (%s units of 1e-12, shape ok %s; %s)" % (
+            ev.get("err"), ev.get("shape"), {k: run.get(k) for k in ("algo", "n", "ny", "nlv", "hist")})
     if e == "End":
-        return "CV:%s:shape:%s" % (scheme, algo), "output shape wrong or pass incomplete at End: %s" % ev
+        if ev.get("shape") == 1 and scheme in SC:
+            raise InfraError("driver skipped a measurement (Out / own-response / residual-only) in block %s" % run)
+        return "CV:%s:shape:%s%s" % (scheme, algo, hist), "output shape wrong or pass incomplete at End: %s (%s)" % (ev, {k: run.get(k) for k in ("n", "scol", "hist", "reuse")})
     return "CV:%s:trace:%s" % (scheme, e), "unexpected event %s" % ev
 
 
-def _mc(ctx):
-    q = ctx.quick
-    runs = [("CvPartition", "MC_CvPartition_quick.cfg" if q else "MC_CvPartition_thorough.cfg", "mc_partition", 1800),
-            ("CvPartition", "MC_CvPartition_live.cfg", "mc_partition_live", 600),
-            ("CvLabels", "MC_CvLabels_quick.cfg" if q else "MC_CvLabels_thorough.cfg", "mc_labels", 900),
-            ("CvOrch", "MC_CvOrch_boot.cfg", "mc_orch_boot", 600),
-            ("CvOrch", "MC_CvOrch_guard.cfg", "mc_orch_guard", 600),
-            ("CvOrch", "MC_CvOrch_live.cfg", "mc_orch_live", 600)]
-    for mod, cfg, label, to in runs:
-        r = tlc.run(mod, cfg, timeout=to)
+MC_RUNS = [("CvPartition", "MC_CvPartition_%s.cfg", "mc_partition", 1800),
+           ("CvPartition", "MC_CvPartition_live.cfg", "mc_partition_live", 600),
+           ("CvPartition", "MC_CvPartition_sym_%s.cfg", "mc_partition_view", 1800),
+           ("CvLabels", "MC_CvLabels_%s.cfg", "mc_labels", 900),
+           ("CvOrch", "MC_CvOrch_boot.cfg", "mc_orch_boot", 600),
+           ("CvOrch", "MC_CvOrch_guard.cfg", "mc_orch_guard", 600),
+           ("CvOrch", "MC_CvOrch_live.cfg", "mc_orch_live", 600),
+           ("CvOrch", "MC_CvOrch_live_boot.cfg", "mc_orch_live_boot", 600),
+           ("CvBoot", "MC_CvBoot_%s.cfg", "mc_boot_accumulators", 1800),
+           ("CvBoot", "MC_CvBoot_live.cfg", "mc_boot_live", 600)]
+# negative configurations: the model of a defective variant MUST be refuted (the invariants bite)
+MC_NEG = [("CvBoot", "MC_CvBoot_stale.cfg", "mc_boot_stale_refuted", "SecondCallIndependent"),
+          ("CvBoot", "MC_CvBoot_requested.cfg", "mc_boot_requested_refuted", "AverageIsMean")]
+
+
+def _mc_start(ctx):
+    """the model-checking runs go on in the background while the conformance runs execute"""
+    t = "quick" if ctx.quick else "thorough"
+
+    def one(spec):
+        mod, cfg, label, to = spec
+        return spec, tlc.run(mod, cfg % t if "%s" in cfg else cfg, timeout=to, workers=max(2, W // 2))
+
+    def neg(spec):
+        mod, cfg, label, inv = spec
+        return spec, tlc.run(mod, cfg, timeout=600, workers=2, coverage=False)
+
+    ex = ThreadPoolExecutor(max(1, min(3, W // 2)))
+    futs = [ex.submit(one, s) for s in MC_RUNS] + [ex.submit(neg, s) for s in MC_NEG]
+    ex.shutdown(wait=False)
+    return futs
+
+
+def _mc_finish(ctx, futs):
+    for f in futs[:len(MC_RUNS)]:
+        (mod, cfg, label, to), r = f.result()
         ctx.add_tlc(r, label)
         if not r.ok:
             raise InfraError("%s/%s: %s fails in the model itself:\n%s" % (mod, cfg, r.violation, r.trace_text[:1500]))
         z = [a for a in r.zero_actions(ignore=("Stutter", "Stop", "LNext", "Next")) if a not in ("Init", "LInit")]
         if z:
             raise InfraError("%s/%s: actions never taken (vacuous): %s" % (mod, cfg, z))
-    ctx.note("models: partition/labels/orchestration invariants and both liveness properties hold")
+    for f in futs[len(MC_RUNS):]:
+        (mod, cfg, label, inv), r = f.result()
+        ctx.add_tlc(r, label)
+        if r.ok or r.violation != inv:
+            raise InfraError("%s/%s: the defective variant was NOT refuted by %s (got %s): the invariant does not bite" % (mod, cfg, inv, r.violation))
+    ctx.note("models: partition (also for every n <= %d under the renaming view) / labels / orchestration / accumulator invariants and the liveness properties hold; "
+             "stale-accumulator and requested-iterations variants refuted" % (20 if ctx.quick else 30))
 
 
 def _label_vectors(ctx, k):
@@ -110,15 +210,61 @@ def _label_vectors(ctx, k):
     return pri + rest, len(seen)
 
 
+def _gen_chains(ctx):
+    """the stratified case chains, generated (and checked for admissibility + class completeness) by TLC from CvCases.tla"""
+    r = tlc.run("CvCases", "GEN_CvCases_%s.cfg" % ("quick" if ctx.quick else "thorough"), timeout=900, coverage=False, workers=1)
+    ctx.add_tlc(r, "gen_cases")
+    seen, chains = set(), []
+    for e in r.emits:
+        k = json.dumps(e, sort_keys=True)
+        if k not in seen:
+            seen.add(k)
+            chains.append(e)
+    if not chains:
+        raise InfraError("CvCases emitted no chain")
+    chains.sort(key=lambda e: json.dumps(e["chain"], sort_keys=True))
+    return chains
+
+
+def _write_cases(path, chains, cid0, index):
+    cid = cid0
+    with open(path, "w") as f:
+        for e in chains:
+            for j, c in enumerate(e["chain"]):
+                f.write("%d %d %d %d %d %d %d %d %d %d %d %d %d %d %d %d %d %d %d %s\n" % (
+                    cid, 1 if j else 0, SC[c["scheme"]], AL[c["algo"]], c["n"], c["p"], c["ny"], c["nlv"], c["xs"], c["ys"], c["k"], c["groups"], c["iters"], c["nth"],
+                    c["dcls"], c["sens"], c["nproc"], c["dseed"], len(c["lab"]), " ".join(map(str, c["lab"]))))
+                index[cid] = (c, e["cls"][j])
+                cid += 1
+    return cid
+
+
+def _classify_runs(ctx, rd, runs):
+    """TLC evaluates the class definitions of CvDomain.tla on the recorded Run events of the randomly generated blocks"""
+    if not runs:
+        return []
+    p = os.path.join(rd, "runs.ndjson")
+    with open(p, "w") as f:
+        for r in runs:
+            f.write(json.dumps(r, separators=(",", ":")) + "\n")
+    r = tlc.run("CvClassify", "GEN_CvClassify.cfg", env={"RUNS": p}, coverage=False, workers=1, timeout=600)
+    ctx.add_tlc(r, "classify_runs")
+    if not r.emits or len(r.emits[0]["cls"]) != len(runs):
+        raise InfraError("CvClassify returned no classification")
+    return r.emits[0]["cls"]
+
+
 def run_check(ctx):
     ctx.assumptions += [
-        "TLC explores the fold generator exhaustively only for n <= %d (every draw sequence), label vectors up to length %d over 4 labels, orchestration up to 12 items x 8 threads" % (6 if ctx.quick else 7, 5 if ctx.quick else 6),
+        "TLC explores the fold generator exhaustively only for n <= %d (every draw sequence; for n <= %d under the id-renaming view), label vectors up to length %d over 4 labels, orchestration up to 12 items x 8 threads, "
+        "accumulators up to %s" % (6 if ctx.quick else 8, 20 if ctx.quick else 30, 5 if ctx.quick else 6, "3 objects x 4 passes x 3 threads x 2 calls" if ctx.quick else "3 objects x 6 passes x 4 threads x 2 calls"),
         "refit error, own-response sensitivity and residual-column errors are computed by the harness in double precision and logged in units of 1e-12 (saturating at 2e-3); TLC checks the bounds and all id/ordering logic",
-        "own-response sensitivity is measured on single-threaded runs only (multi-threaded runs share the global RNG word - property C06 - so two runs need not draw the same folds)",
+        "own-response sensitivity and the residual-only call compare two runs: bootstrap only single-threaded (multi-threaded runs share the global RNG word - property C06 - so two runs need not draw the same folds); LeaveOneOut / KFoldCV for every thread count",
         "group count 1 is exercised through the helper functions only (its training set is empty); KFoldCV with LDA is excluded (the routine does not support it)",
         "hook H5 reports fold matrices when complete, row ids at the copy, join after pthread_join returns, merge before the worker's output is added",
+        "a freed output object is recognised through the sanitizer's shadow memory (san build)",
     ]
-    _mc(ctx)
+    mc = _mc_start(ctx)
     lib = build.build_lib("san")
     exe = build.build_harness("c05", ["c05_drv.c"], lib)
     rd = tlc.rundir()
@@ -139,7 +285,21 @@ def run_check(ctx):
             for v in labs:
                 f.write("%d %s\n" % (len(v), " ".join(map(str, v))))
         jobs.append([os.path.join(rd, "l.ndjson"), "labels", ctx.seed + 99, len(labs), lf])
-        res = hrun.run_many(exe, jobs, timeout=2400, workers=12)
+        # TLC-generated chains, dealt round-robin into a few case files (a chain stays in one file = one process per chain)
+        # every chain is replayed on NREP different data sets (the data seed of the driver differs per replicate)
+        chains = _gen_chains(ctx)
+        nfiles = 4 if q else 12
+        nrep = 2 if q else 3
+        index, cid = {}, 0
+        for rep in range(nrep):
+            for i in range(nfiles):
+                part = chains[i::nfiles]
+                if not part:
+                    continue
+                cf = os.path.join(rd, "cases%d_%d.txt" % (rep, i))
+                cid = _write_cases(cf, part, cid, index)
+                jobs.append([os.path.join(rd, "g%d_%d.ndjson" % (rep, i)), "cases", ctx.seed + 7919 * rep, 1000000, cf])
+        res = hrun.run_many(exe, jobs, timeout=2400, workers=W)
         events = []
         for j, h in zip(jobs, res):
             ev = hrun.read_ndjson(j[0])
@@ -150,50 +310,138 @@ def run_check(ctx):
             events += ev
         blocks = tlc.split_blocks(events)
         nblocks = 0
+        executed = set()
+        legacy_runs = []
         for b in blocks:
             run = _block_info(b)
             if not run:
                 continue
             nblocks += 1
             scheme = run.get("scheme")
-            key = (scheme, run.get("algo"), run.get("n"), run.get("groups"), run.get("nth"), run.get("ny"), run.get("nlv"), tuple(run.get("lab", [])))
+            key = (scheme, run.get("algo"), run.get("n"), run.get("p"), run.get("groups"), run.get("iters"), run.get("nth"), run.get("ny"), run.get("nlv"), run.get("dcls"),
+                   run.get("hist"), run.get("sensall"), run.get("nproc"), run.get("xs"), run.get("ys"), run.get("case"), tuple(run.get("lab", [])))
+            t = None
             if scheme == "tts":
                 t = next((e for e in b if e["e"] == "Tts"), None)
                 key = ("tts", run.get("n"), t["num"] if t else -1, tuple(t["test"]) if t else ())
-            nt = scheme == "kfold" or (scheme == "tts" and t is not None and len(t["test"]) >= 1) or run.get("ny", 1) > 1 or (run.get("groups") and run.get("n") % run.get("groups") != 0)
+            nt = scheme == "kfold" or (scheme == "tts" and t is not None and len(t["test"]) >= 1) or run.get("ny", 1) > 1 or bool(run.get("groups") and run.get("n") % run.get("groups") != 0) \
+                or run.get("nth", 1) > 1 or run.get("hist", 0) > 0
             ctx.case(key, nt)
+            if run.get("e") == "Run" and scheme in SC:
+                if run.get("case", -1) >= 0:
+                    executed.add(run["case"])
+                    for tag in index[run["case"]][1]:
+                        ctx.cls(tag)
+                else:
+                    legacy_runs.append(run)
+            elif scheme == "helpers":
+                ctx.cls("H:helpers-all-(n,groups)")
+                if run.get("groups") == 1:
+                    ctx.cls("G:groups=1(helpers-only)")
+                if run.get("reuse"):
+                    ctx.cls("K7:helpers-fold-matrix-and-split-outputs-already-sized")
+            elif scheme == "tts":
+                ctx.cls("H:train_test_split")
+                if run.get("reuse"):
+                    ctx.cls("K7:train_test_split-outputs-already-sized")
+        for tags in _classify_runs(ctx, rd, legacy_runs):
+            for tag in tags:
+                if tag == "OUTSIDE":
+                    raise InfraError("the random generator produced a case outside the quantifier / learner domain")
+                ctx.cls(tag)
+        missing = sorted(set(index) - executed)
+        if missing:
+            # a chain that died is reported through its Crash event below; cases that silently never ran are the driver's fault
+            crashed = any(e["e"] == "Crash" for e in events) or any(e["e"] == "Out" and (e["pred_freed"] or e["res_freed"]) for e in events)
+            if not crashed:
+                raise InfraError("%d TLC-generated cases were not executed by the driver (first: %s)" % (len(missing), index[missing[0]][0]))
         if not any(e["e"] == "Tts" and len(e["test"]) >= 2 for e in events):
             raise InfraError("no train_test_split recording")
         if not any(e["e"] == "Groups" for e in events) or not any(e["e"] == "Create" for e in events):
             raise InfraError("no Groups/Create events: hook H5 is not firing (hooks removed or guard off)")
+        for kind in ("Out", "ResOnly"):
+            if not any(e["e"] == kind for e in events):
+                raise InfraError("no %s events recorded" % kind)
+        if not any(e["e"] == "Run" and e.get("sensall") == 1 for e in events) or not any(e["e"] == "Run" and e.get("hist", 0) >= 3 for e in events):
+            raise InfraError("no every-object / history blocks recorded")
         for b in blocks:
             run = _block_info(b)
             if run.get("scheme") in ("boot", "kfold") and run.get("ny", 1) > 1:
                 ctx.sample([e for e in b if e["e"] in ("Run", "Groups", "Split")][:4], 3)
-        ctx.cov["rule"] = ("a case is one recorded run (block) keyed by (scheme, learner, n, groups, threads, ny, nlv, labels); helpers: all (n, groups) with n 1..%d x 2 seeds; "
-                           "cv: random in-quantifier configurations; labels: TLC-generated label vectors (%d distinct generated, %d replayed); non-trivial = k-fold, "
-                           "ny > 1, or groups does not divide n") % (18 if q else 30, nlab, len(labs))
+        ctx.cov["rule"] = ("a case is one recorded run (block) keyed by (scheme, learner, n, p, groups, iterations, threads, ny, nlv, data class, position in the process history, labels); "
+                           "helpers: all (n, groups) with n 1..%d x 2 seeds; cv: random in-quantifier configurations; labels: TLC-generated label vectors (%d distinct generated, %d replayed); "
+                           "cases: %d executions of TLC-generated stratified cases (%d chains x %d data sets; CvCases.tla, every class of CvCases!Required present); non-trivial = k-fold, ny > 1, groups does not divide n, "
+                           "threads > 1 or a later run of a process history") % (18 if q else 30, nlab, len(labs), len(index), len(chains), nrep)
 
         def on_reject(ev, idx, block):
+            if ev.get("e") == "Run":
+                raise InfraError("TraceCv rejects a Run event: the driver ran a case outside the quantifier / learner domain, or announces other work items / width than the specification computes: %s" % ev)
             sig, what = _sig(ev, block)
             run = _block_info(block)
+            if ev.get("e") == "Out" and not SIZED_OUTPUT_IS_VERDICT:
+                ctx.extra(sig, what)
+                return "dup" if sig in ctx.extras else None
             known = any(v[0] == sig for v in ctx.violations) or sig in ctx.known_hits
-            ctx.violation(sig, what, dict(kind="block", run=run, event=ev, block=block[:60]))
+            ctx.violation(sig, what, dict(kind="block", run=run, event=ev, case=index.get(run.get("case"), (None,))[0], block=block[:80]))
             return "dup" if known else None
-        trace.check_trace(ctx, "TraceCv", "Trace_Cv.cfg", "Trace_Cv_prop.cfg", events, on_reject, drop="block", max_rounds=40, label="trace_cv", xmx="8g")
+        # runs that died or lost an output object are validated as a stream of their own (TLC still decides): a defect that kills many runs
+        # must not use up the rejection rounds of the main stream and so hide other signatures
+        def dead(b):
+            return any(e["e"] == "Crash" or (e["e"] == "Out" and (e["pred_freed"] or e["res_freed"])) for e in b)
+        dead_ev = [e for b in blocks if dead(b) for e in b]
+        main_ev = [e for b in blocks if not dead(b) for e in b]
+        if dead_ev:
+            trace.check_trace(ctx, "TraceCv", "Trace_Cv.cfg", "Trace_Cv_prop.cfg", dead_ev, on_reject, drop="block", max_rounds=14, label="trace_cv_dead_runs", xmx="4g", timeout=900)
+        trace.check_trace(ctx, "TraceCv", "Trace_Cv.cfg", "Trace_Cv_prop.cfg", main_ev, on_reject, drop="block", max_rounds=40, label="trace_cv", xmx="8g", timeout=1800)
         ctx.traces(nblocks)
-
-        # binding self-test: swap two ids between train and test of one logged split -> must be rejected
-        def corrupt(evs):
-            for e in evs:
-                if e["e"] == "Split" and len(e["train"]) >= 1 and len(e["test"]) >= 1:
-                    e["train"][0], e["test"][0] = e["test"][0], e["train"][0]
-                    return True
-            return False
-        first = next(b for b in blocks if any(e["e"] == "Split" for e in b) and _block_info(b).get("scheme") == "boot")
-        trace.binding_selftest(ctx, "TraceCv", "Trace_Cv_prop.cfg", first, corrupt, "binding_split")
+        _selftests(ctx, blocks)
+        _mc_finish(ctx, mc)
     finally:
         shutil.rmtree(rd, ignore_errors=True)
+
+
+def _selftests(ctx, blocks):
+    """binding self-tests: corrupt one recorded field -> TLC must reject"""
+    def info(b):
+        return _block_info(b)
+
+    def find(pred):
+        for b in blocks:
+            r = info(b)
+            if r.get("e") == "Run" and pred(r, b) and any(e["e"] == "End" and e["shape"] == 1 for e in b):
+                return b
+        raise InfraError("binding self-test: no block to corrupt")
+
+    def setter(kind, field, value, pick=lambda e: True):
+        def corrupt(evs):
+            for e in evs:
+                if e["e"] == kind and pick(e):
+                    e[field] = value(e[field]) if callable(value) else value
+                    return True
+            return False
+        return corrupt
+
+    # swap two ids between train and test of one logged split
+    def swap(evs):
+        for e in evs:
+            if e["e"] == "Split" and len(e["train"]) >= 1 and len(e["test"]) >= 1:
+                e["train"][0], e["test"][0] = e["test"][0], e["train"][0]
+                return True
+        return False
+    boot = find(lambda r, b: r.get("scheme") == "boot" and any(e["e"] == "Split" for e in b))
+    trace.binding_selftest(ctx, "TraceCv", "Trace_Cv_prop.cfg", boot, swap, "binding_split")
+    anycv = find(lambda r, b: r.get("scheme") in SC and any(e["e"] == "ResOnly" for e in b))
+    trace.binding_selftest(ctx, "TraceCv", "Trace_Cv_prop.cfg", anycv, setter("Out", "pred_freed", 1), "binding_out")
+    trace.binding_selftest(ctx, "TraceCv", "Trace_Cv_prop.cfg", anycv, setter("ResOnly", "err", 5000), "binding_resonly")
+    trace.binding_selftest(ctx, "TraceCv", "Trace_Cv_prop.cfg", anycv, lambda evs: bool([evs.remove(e) for e in list(evs) if e["e"] == "ResOnly"]), "binding_resonly_missing")
+    trace.binding_selftest(ctx, "TraceCv", "Trace_Cv_prop.cfg", anycv, lambda evs: bool([evs.remove(e) for e in list(evs) if e["e"] == "Out"]), "binding_out_missing")
+    sall = find(lambda r, b: r.get("scheme") in SC and r.get("sensall") == 1)
+    trace.binding_selftest(ctx, "TraceCv", "Trace_Cv_prop.cfg", sall, setter("Pred", "sens", 7, lambda e: e["i"] == info(sall)["n"] - 1), "binding_sens_last_object")
+    trace.binding_selftest(ctx, "TraceCv", "Trace_Cv_prop.cfg", sall, setter("Pred", "sens", -1, lambda e: e["i"] == 2), "binding_sens_unmeasured")
+    trace.binding_selftest(ctx, "TraceCv", "Trace_Cv_prop.cfg", anycv, setter("Run", "n", 31), "binding_quantifier")
+    hist = find(lambda r, b: r.get("scheme") in SC and r.get("hist", 0) >= 1)
+    trace.binding_selftest(ctx, "TraceCv", "Trace_Cv_prop.cfg", hist, setter("Pred", "refit", 1001), "binding_history_refit")
+    trace.binding_selftest(ctx, "TraceCv", "Trace_Cv_prop.cfg", hist, setter("End", "shape", 0), "binding_history_shape")
 
 
 def run(ctx):
